@@ -889,3 +889,24 @@ seed("c10-triple-root-c", "C10", PM, "            roots[0] = -b / ( 3. * a );", 
 seed("c10-quadratic-no-conj", "C10", PM, "        let mut sgn: f64 = ( b.conj() * discriminant.sqrt() ).real;", "        let mut sgn: f64 = ( b * discriminant.sqrt() ).real;", "quadratic-sign")
 seed("c15-norm-p-rejects-one", "C15", VF, "    pub fn norm_p(&self, p: f64 ) -> f64 {\n", "    pub fn norm_p(&self, p: f64 ) -> f64 {\n        if !( p > 1.0 ) { panic!( \"Vector norm_p: the exponent must be at least 1.\" ); }\n", "abs-norms/norm_p/domain")
 seed("n-c15-norm-p-rejects-below-one", "C15", VF, "    pub fn norm_p(&self, p: f64 ) -> f64 {\n", "    pub fn norm_p(&self, p: f64 ) -> f64 {\n        if p < 1.0 { panic!( \"Vector norm_p: the exponent must be at least 1.\" ); }\n", "SILENT", "neutral inside the property's exponent domain [1, 8]")
+
+# ---------------------------------------------------------------- C09 iteration map / failure exits (reference comparison)
+seed("c09-cg-beta-inverted", "C09", SP, "                beta = rho / rho_1;", "                beta = rho_1 / rho;", "iteration-map/solve_cg")
+seed("c09-cg-alpha-qq", "C09", SP, "            alpha = rho / p.dot( &q );", "            alpha = rho / q.dot( &q );", "iteration-map/solve_cg")
+seed("c09-bicg-shadow-direction-sign", "C09", SP, "                pp = zz.clone() + pp * beta;", "                pp = zz.clone() - pp * beta;", "iteration-map/solve_bicg")
+seed("c09-bicgstab-omega-ss", "C09", SP, "            omega = t.dot( &s ) / t.dot( &t );", "            omega = t.dot( &s ) / s.dot( &s );", "iteration-map/solve_bicgstab")
+seed("c09-bicgstab-beta-no-ratio", "C09", SP, "                beta = ( rho_1 / rho_2 ) * ( alpha / omega );", "                beta = ( rho_1 / rho_2 ) * ( omega / alpha );", "iteration-map/solve_bicgstab")
+seed("c09-qmr-eta-gamma1", "C09", SP, "            eta = -eta * rho_1 * gamma * gamma / ( beta * gamma_1 * gamma_1 );", "            eta = -eta * rho_1 * gamma * gamma / ( beta * gamma_1 );", "iteration-map/solve_qmr")
+seed("c09-qmr-shadow-from-b", "C09", SP, "        w_tld = r.clone();", "        w_tld = b.clone();", "iteration-map/solve_qmr")
+seed("c09-qmr-eta-start", "C09", SP, "        eta = -1.0;", "        eta = 1.0;", "iteration-map/solve_qmr")
+seed("c09-qmr-q-uses-xi", "C09", SP, "                q = z_tld - ( rho * delta / ep ) * q;", "                q = z_tld - ( xi * delta / ep ) * q;", "iteration-map/solve_qmr")
+seed("c09-qmr-early-breakdown-exit", "C09", SP, """            rho = y.norm_2();
+""", """            rho = y.norm_2();
+            if rho == 0.0 { return Err( resid ); }
+""", "failure-exits/solve_qmr#1")
+seed("n-c09-qmr-exits-joined", "C09", SP, """            if rho == 0.0 { return Err( resid ); }
+            if xi == 0.0 { return Err( resid ); }
+""", """            if rho == 0.0 || xi == 0.0 { return Err( resid ); }
+""", "SILENT", "neutral: the two breakdown tests of the loop top joined")
+seed("n-c09-qmr-eta-regrouped", "C09", SP, "            eta = -eta * rho_1 * gamma * gamma / ( beta * gamma_1 * gamma_1 );", "            eta = -( eta * rho_1 / beta ) * ( gamma / gamma_1 ) * ( gamma / gamma_1 );", "SILENT", "neutral: the same rational function, regrouped")
+seed("n-c09-cg-beta-named", "C09", SP, "                beta = rho / rho_1;\n                p = z.clone() + p.clone() * beta;", "                p = z.clone() + p.clone() * ( rho / rho_1 );", "SILENT", "neutral: beta inlined")
